@@ -3,4 +3,4 @@ From QV Require Import Kernel.Ident Kernel.Tasklocal.
 Require Extraction.
 Require Import ExtrOcamlBasic.
 Extraction Language OCaml.
-Extraction "../ocaml/gen/c09_model.ml" id_alloc qthread_id alloc_seq init thread_new get_tasklocal size_tasklocal tl_view tl_region arg_view arg_region tl_write thread_free pattern_bytes tl_off.
+Extraction "../ocaml/gen/c09_model.ml" id_alloc qthread_id alloc_seq init thread_new get_tasklocal size_tasklocal tl_view tl_region arg_view arg_region tl_write thread_free tl_off.
